@@ -99,6 +99,9 @@ func c15Source(cs c15Case) string {
 	}
 	b.WriteString("    !type Outer%2EInner:\n        n <: int\n    !type Outer:\n        o <: int\n")
 	fmt.Fprintf(&b, "B:\n    !%s %s:\n        z <: int [~pk]\n", cs.KB, cs.NameB)
+	// an application whose name begins with another application's name: its types belong to neither A's
+	// nor B's diagram
+	b.WriteString("AZ:\n    !type Extra:\n        e <: int\n")
 	return b.String()
 }
 
